@@ -166,6 +166,8 @@ type c19World struct {
 	regDirty bool
 	repairs  int
 	pipe     *c19PipeNet
+	// quietLog: the next run's logger does not emit Info records (regbot -v warn)
+	quietLog bool
 }
 
 func c19NewWorld(rec *ev.Rec) (*c19World, error) {
@@ -441,12 +443,18 @@ type c19Capture struct {
 	markers []string // script + " " + marker
 	infos   []string // the tool's own Info/Warn records (message + attributes)
 	watchFS bool
+	quiet   bool // enabled from Warn upwards only
 }
 
 var c19LineNo = regexp.MustCompile(`<string>:\d+:`)
 var c19Addr = regexp.MustCompile(`0x[0-9a-f]{6,}`)
 
-func (c *c19Capture) Enabled(_ context.Context, l slog.Level) bool { return l >= slog.LevelInfo }
+func (c *c19Capture) Enabled(_ context.Context, l slog.Level) bool {
+	if c.quiet {
+		return l >= slog.LevelWarn
+	}
+	return l >= slog.LevelInfo
+}
 func (c *c19Capture) WithAttrs([]slog.Attr) slog.Handler           { return c }
 func (c *c19Capture) WithGroup(string) slog.Handler                { return c }
 
@@ -594,7 +602,7 @@ func (w *c19World) run(scripts []c19Script, dry bool, watchFS bool) (*c19Run, er
 		regclient.WithConfigHost(config.Host{Name: c19Host, Hostname: c19Host, TLS: config.TLSDisabled, ReqConcurrent: 64}),
 		regclient.WithRegOpts(reg.WithHTTPClient(&http.Client{Transport: rt}), reg.WithDelay(time.Millisecond, time.Millisecond)),
 	)
-	cp := &c19Capture{w: w, rt: rt, watchFS: watchFS}
+	cp := &c19Capture{w: w, rt: rt, watchFS: watchFS, quiet: w.quietLog}
 	fp := map[string]c19Ent{}
 	for k, v := range w.pristine {
 		v.Hash = ""
@@ -615,7 +623,7 @@ func (w *c19World) run(scripts []c19Script, dry bool, watchFS bool) (*c19Run, er
 		cp.cur, cp.curOcc, cp.curScr = 0, 0, s.Name
 		cs := ConfigScript{Name: s.Name, Script: s.Text, Timeout: 60 * time.Second}
 		if s.TimeoutMs > 0 {
-			cs.Timeout = time.Duration(s.TimeoutMs) * time.Millisecond
+			cs.Timeout = time.Duration(c19WaitScale(s)) * time.Millisecond
 		}
 		var err error
 		func() {
